@@ -9,3 +9,5 @@ From HV Require Export PropsWire.
 From HV Require Export PropsCluster.
 From HV Require Export PropsEvents.
 From HV Require Export PropsTree.
+From HV Require Export PropsClusterNet.
+From HV Require Export PropsRegistry.
